@@ -10,6 +10,7 @@ import (
 	"strings"
 	"time"
 
+	"github.com/emitter-io/emitter/internal/network/mqtt"
 	"github.com/emitter-io/emitter/internal/security"
 	"github.com/emitter-io/emitter/internal/security/hash"
 	"github.com/emitter-io/emitter/verif/bk"
@@ -51,7 +52,51 @@ func grants(b *bk.Broker, key string, probes []tprobe) map[string]bool {
 			out[p.String()] = true
 		}
 	}
+	// minting: is the string accepted as a master key by the key generator?
+	if _, e := b.Svc.VerifKeygen().CreateKey(key, "x/y/", security.AllowRead, time.Unix(0, 0)); e == nil {
+		out["mint x/y/"] = true
+	}
+	// banning keys (emitter/keyban/) with the string as the secret: only worth a round trip when it decrypts to the
+	// master permission byte (the harness peeks with the cipher only to skip useless requests)
+	if pk, err := b.Cipher.DecryptKey([]byte(key)); err == nil && len(pk) == 24 && pk.IsMaster() {
+		if banProbe(b, key) {
+			out["keyban"] = true
+		}
+	}
 	return out
+}
+
+var banClients = map[*bk.Broker]*bk.Client{}
+var banTargets = map[*bk.Broker]string{}
+
+// banProbe sends an emitter/keyban/ request with the given secret and reports whether the broker accepted it.
+func banProbe(b *bk.Broker, secret string) bool {
+	cl := banClients[b]
+	if cl == nil {
+		cl = b.Attach()
+		cl.Send(&mqtt.Connect{ClientID: []byte("ban")})
+		cl.Barrier(5 * time.Second)
+		banClients[b] = cl
+		banTargets[b], _ = b.Key("ban/target/", "r", time.Unix(0, 0))
+	}
+	body, _ := json.Marshal(map[string]any{"secret": secret, "target": banTargets[b], "banned": true})
+	cl.Send(&mqtt.Publish{Header: mqtt.Header{QOS: 1}, MessageID: 9, Topic: []byte("emitter/keyban/"), Payload: body})
+	pk, err := cl.Barrier(8 * time.Second)
+	if err != nil {
+		core.Fatalf("keyban probe: %v", err)
+	}
+	ok := false
+	for _, m := range pk {
+		if a := bk.Abstract(m); a.T == "resp" && a.Api == "keyban" && a.Code == 200 {
+			ok = true
+		}
+	}
+	if ok { // undo with the real master key
+		body, _ = json.Marshal(map[string]any{"secret": b.MasterKey(), "target": banTargets[b], "banned": false})
+		cl.Send(&mqtt.Publish{Header: mqtt.Header{QOS: 1}, MessageID: 10, Topic: []byte("emitter/keyban/"), Payload: body})
+		cl.Barrier(8 * time.Second)
+	}
+	return ok
 }
 
 // mask computes the plaintext xor mask (or block swap) the attacker applies for a field-level operation.
@@ -145,10 +190,23 @@ func RunC12(c *core.Ctx) {
 	if len(cases) == 0 || int64(len(cases)) != expected || len(probes) == 0 {
 		core.Fatalf("received %d cases / %d probes from TLC, the grid has %d", len(cases), len(probes), expected)
 	}
-	var evals, nontrivial, streamGains, charSubs int64
+	var evals, nontrivial, streamGains, charSubs, banGains int64
 	verdict := func(v int, what string, orig, mod string, gained []string, predicted map[string]bool, cs any) {
 		if len(gained) == 0 {
 			return
+		}
+		if len(gained) == 1 && gained[0] == "keyban" && c.Known("keyban_skips_contract_validation") {
+			banGains++
+			return
+		}
+		var rest []string
+		for _, g := range gained {
+			if g != "keyban" && g != "mint x/y/" {
+				rest = append(rest, g)
+			}
+		}
+		if v >= 2 && len(rest) < len(gained) && predicted != nil {
+			predicted["keyban"], predicted["mint x/y/"] = true, true // a stream cipher lets the attacker write the master permission byte
 		}
 		explained := v >= 2
 		if predicted != nil {
@@ -213,9 +271,9 @@ func RunC12(c *core.Ctx) {
 	}
 	// beyond the model: every single-character substitution at seeded positions, and seeded multi-byte xor masks
 	alphabet := "ABCDEFGHIJKLMNOPQRSTUVWXYZabcdefghijklmnopqrstuvwxyz0123456789-_"
-	perKey := 300
+	perKey := 3 * 8 * 255
 	if !c.Quick() {
-		perKey = 32 * 63
+		perKey = 3 * 8 * 255 * 2
 	}
 	for v := 1; v <= 3; v++ {
 		b := brokers[v]
@@ -226,16 +284,17 @@ func RunC12(c *core.Ctx) {
 			ks, _ := Mint(b, Key{Decrypts: true, Contract: "own", SigOK: true, MasterOK: true, Perms: shape.perms, Expiry: "none", Target: shape.target}, uint16(rng.Intn(30000)))
 			base := grants(b, ks, probes)
 			for n := 0; n < perKey; n++ {
-				pos, ch := n/63, n%63
-				if c.Quick() {
-					pos, ch = rng.Intn(32), rng.Intn(63)
-				}
+				pos, ch := rng.Intn(32), rng.Intn(63)
 				sub := alphabet[ch]
 				if sub == ks[pos] {
 					sub = alphabet[63]
 				}
 				mod := ks[:pos] + string(sub) + ks[pos+1:]
-				if n%5 == 4 { // multi-byte xor mask
+				if n%3 == 2 { // every xor value on a byte of the block that holds signature, path and permissions
+					raw, _ := base64.RawURLEncoding.DecodeString(ks)
+					raw[8+(n/3)%8] ^= byte(1 + (n/24)%255)
+					mod = base64.RawURLEncoding.EncodeToString(raw)
+				} else if n%5 == 4 { // multi-byte xor mask
 					raw, _ := base64.RawURLEncoding.DecodeString(ks)
 					for j := 0; j < 1+rng.Intn(4); j++ {
 						raw[rng.Intn(24)] ^= byte(1 + rng.Intn(255))
@@ -260,6 +319,7 @@ func RunC12(c *core.Ctx) {
 	c.Set("byte_level_mutations", charSubs)
 	c.Set("distinct_nontrivial", nontrivial)
 	c.Set("gains_explained_by_stream_malleable", streamGains)
+	c.Set("gains_explained_by_keyban_finding", banGains)
 	c.Set("rule", "TLC enumerates issued key shapes (7 masks x 6 targets x 3 expiries) x field-level tamper operations (toggle each permission, the exact bit, each path bit; re-target the stored hash; rewrite the expiry; touch salt/master/contract/signature; swap 8-byte blocks) and the grants gained under an authenticated, a block and a stream cipher; each is concretised as a byte operation on the real 32-character key under license v1, v2, v3 and decided by the real Service.Authorize over 30 probes; plus seeded single-character substitutions and multi-byte xor masks; non-trivial = cases where the model predicts a gain under a stream cipher")
 	c.Assume = append(c.Assume, "bounded Dolev-Yao style attacker (field-level operations, character substitutions, xor masks, block swaps of ONE issued key); no cryptanalysis",
 		"under XTEA a garbled block carries the right 32-bit signature / target hash with probability 2^-32 per attempt: excluded")
